@@ -11,7 +11,7 @@ CONSTANTS
   Pools <- PoolsSmall
   Waits = {TRUE, FALSE}
   MinItems = {1, 3}
-  Grans = {1, 2, 3}
+  Grans = {1, 3}
   Props = {"c12"}
   L3 = 1
   GSpan = 2
